@@ -218,7 +218,11 @@ PROPS = {
                 "digit-only / type-word / non-ASCII / one-letter / very long segments, 6-66 segments, parent, child, string-prefix sibling or leaf of another account). "
                 "Stream disorder: sparse account timelines (one open/booking/assertion/close/price per step, mostly on a date of its own), re-open journals and automaton journals whose FILE order is "
                 "rearranged (displaced or nudged directives, swapped/displaced/permuted/reversed days, shuffled tail, full shuffle, grouped by kind, concatenated chronological files); the specification "
-                "sorts the generated directive list itself and is compared with check.Check and `knut check`.",
+                "sorts the generated directive list itself and is compared with check.Check and `knut check`. "
+                "Stream trees: the journal spread over an include tree of 1-40 (120) files (wide, below hubs, nested, chains, random, a file included twice; sub-directories, respelled paths), a presence tie "
+                "through all members, half of the cases with a fault at a chosen place (missing / directory / empty / cyclic include, unreadable member, rejected text first / middle / last in a member, "
+                "rejected date or account type, lifecycle violation in a member's last line), one case in eight with members of 60 KB - 6 MB of comments, prices and bookings laid out around the fault; "
+                "in-process and `knut check|print|balance` under KNUT_VERIF_SEED and GOMAXPROCS 1/2/16: an unloadable tree is rejected, otherwise the verdict is the specification's on the union of the directives.",
         "assumptions": ["the day grouping of journal.Builder (model Builder.ofList) is exercised through the real loader on every case"],
     },
     "C07": {
